@@ -20,7 +20,7 @@ Theorem C08_delete_lines :
     (s <= e)%nat -> (e <= length cl)%nat ->
     let '(rest, reg) := delete_lines cl s e in
     exists pre mid post,
-      concat cl = pre ++ mid ++ post /\ concat rest = pre ++ post /\ reg = RLine mid.
+      concat cl = pre ++ mid ++ post /\ concat rest = pre ++ post /\ reg = RLine (with_newline mid).
 Proof. exact delete_lines_local. Qed.
 
 (** (2) yank: the text is untouched and the register holds the covered span -
